@@ -72,6 +72,7 @@ def build(harness, tus, hdf5=0, extra_flags=(), libs=('-lfftw3f',), noinline_tus
     for n, src in names:
         fl = list(flags)
         if os.path.relpath(src, REPO) in noinline_tus: fl.append('-fno-inline')
+        if n == 'harness': fl.append('-fno-access-control')    # harness may read private members (for roots); repo TUs are compiled as they are
         jobs.append([CXX] + fl + inc + ['-c', src, '-o', os.path.join(tmp, n + '.o')])
         jobs.append([CXX] + fl + inc + ['-S', '-emit-llvm', src, '-o', os.path.join(tmp, n + '.ll')])
     with ThreadPoolExecutor(16) as ex: list(ex.map(_run, jobs))
